@@ -61,6 +61,11 @@ fn weights(v: &Value) -> [Vec<Vec<i64>>; 2] {
 }
 
 fn named_from(w: &[Vec<Vec<i64>>; 2], singles: [usize; 2]) -> [Vec<(String, Vec<(String, f64)>)>; 2] {
+    named_from_scaled(w, singles, 1.0)
+}
+
+/// every weight multiplied by a power of two (exact, also when the results are subnormal): the same profile
+fn named_from_scaled(w: &[Vec<Vec<i64>>; 2], singles: [usize; 2], scale: f64) -> [Vec<(String, Vec<(String, f64)>)>; 2] {
     let mut res: [Vec<(String, Vec<(String, f64)>)>; 2] = [Vec::new(), Vec::new()];
     for pl in 0..2 {
         for (j, ws) in w[pl].iter().enumerate() {
@@ -68,12 +73,12 @@ fn named_from(w: &[Vec<Vec<i64>>; 2], singles: [usize; 2]) -> [Vec<(String, Vec<
                 format!("m{}", j + 1),
                 ws.iter()
                     .enumerate()
-                    .map(|(a, x)| (format!("a{}", a + 1), *x as f64))
+                    .map(|(a, x)| (format!("a{}", a + 1), *x as f64 * scale))
                     .collect(),
             ));
         }
         for j in 0..singles[pl] {
-            res[pl].push((format!("s{}", j + 1), vec![("only".to_string(), 1.0)]));
+            res[pl].push((format!("s{}", j + 1), vec![("only".to_string(), scale)]));
         }
     }
     res
@@ -311,8 +316,15 @@ pub fn replay_dist(args: &Args) {
         let (sc, tc) = (s.clone(), t.clone());
         let res = util::catch(move || {
             let game = tree::build(&tree).expect("carrier game");
-            let one = game.from_named(named_from(&sc, singles)).expect("grid profile");
-            let two = game.from_named(named_from(&tc, singles)).expect("grid profile");
+            // every third case: the first profile given in weights x 2^-1070 (subnormal totals), every third the second in
+            // weights x 2^900 - the same profiles, so the specified distances stand
+            let (k1, k2) = match n % 3 {
+                1 => (2f64.powi(-1070), 1.0),
+                2 => (1.0, 2f64.powi(900)),
+                _ => (1.0, 1.0),
+            };
+            let one = game.from_named(named_from_scaled(&sc, singles, k1)).expect("grid profile");
+            let two = game.from_named(named_from_scaled(&tc, singles, k2)).expect("grid profile");
             let fwd = util::catch(std::panic::AssertUnwindSafe(|| one.distance(&two, p)));
             let bwd = util::catch(std::panic::AssertUnwindSafe(|| two.distance(&one, p)));
             let slf = util::catch(std::panic::AssertUnwindSafe(|| one.distance(&one, p)));
